@@ -1,5 +1,5 @@
 """C12 — fixed-size hint, reset and the generator's error contract (structural clauses)."""
-from ..rules import generator as gen, piece, errflow
+from ..rules import generator as gen, piece, errflow, summary
 
 EXPL = ("Decides, on the type-checked MIR of /repo: (1) SA-FIELDS: Generator::reset and BlockHashContext::reset give every field the "
         "same symbolic value as new(), except three reasoned exceptions each with a structural side condition (h_last only used under "
@@ -27,6 +27,7 @@ def run(ctx):
         ctx.guard("C12", "reset", lambda: gen.reset_equals_new(ctx, prog))
         ctx.guard("C12", "reset-side", lambda: gen.reset_side_conditions(ctx, prog))
         ctx.guard("C12", "init", lambda: piece.initial_state(ctx, prog))
+        ctx.guard("C12", "summaries", lambda: summary.check(ctx, prog, 'internals::generate::Generator|generate_easy', floor=5))
         if c != "nodef":
             # the front ends that declare a size on the caller's behalf declare the right one (buffer length / metadata of the opened file)
             ctx.guard("C12", "buf", lambda: errflow.buf(ctx, prog))
